@@ -631,8 +631,8 @@ theorem unitNE_of_lex (rp : RawPosting) (h : RawPostingLex rp) : UnitNE rp.unit 
 
 /-! ## what the grammar stores is well-formed (the fields the property names)
 
-`RawLex` of the parser's output is not proved in full (it is the inverse direction of every per-parser
-lemma, and its timestamp part is the calendar inverse law); these are the parts the property statement
+`RawLex` of the parser's output is proved in full in `Lemmas/RawLex.lean` and `Props/C06b.lean`
+(`parseJournal_rawLex`; its timestamp part is `tsOK_of_resolved`); these are the parts the property statement
 mentions: numbers, trimmed code, right-trimmed description, one-line comments. -/
 
 theorem trimEnd_idem : ∀ l : List Char, trimEnd (trimEnd l) = trimEnd l := by
